@@ -82,6 +82,10 @@ def histories_for_case(case: dict, rng: random.Random, all_orders: bool) -> tupl
                 if c:
                     drop = rng.randrange(len(c))
                     evs += pcall.do_call(pl, o, [p for i, p in enumerate(kw) if i != drop], "call")
+                # a keyword for a name that an executed function binds: whether it is rejected is a don't-care, but if the
+                # call returns, the bound value (not the keyword) must have been used
+                for b in sorted({p for f in pdesc["funcs"] for p in f["bound"]} - set(c) - {o}):
+                    evs += pcall.do_call(pl, o, kw + [[b, pcall.kv(b)]], "call")
         traces.append({"desc": t2, "ev": evs, "order": list(order)})
     return traces, viols
 
@@ -168,9 +172,9 @@ def run(ctx: Ctx) -> None:
     cases: list[dict] = []
     if quick:
         wd = ctx.workdir("u2")
-        r = run_tlc("MC_PipelineCall", UCFG.format(n=2, rich="FALSE", shard=0, nshards=1), wd, workers=16,
+        r = run_tlc("MC_PipelineCall", UCFG.format(n=2, rich="TRUE", shard=0, nshards=1), wd, workers=16,
                     allow_violation=False)
-        ctx.add_tlc(r, "USpec N=2")
+        ctx.add_tlc(r, "USpec N=2 (rich: both parameter orders, bound first parameter)")
         cases += [p for t, p in parse_prints(r.prints) if t == "CASE"]
         r = run_tlc("MC_PipelineCall", BCFG.format(n=2, rich="FALSE"), ctx.workdir("b2"), workers=16, deadlock=True,
                     allow_violation=False)
